@@ -51,6 +51,15 @@ func (s *c16State) Exchange(_ context.Context, input arrow.RecordBatch, out *Out
 	if v < 0 {
 		return errors.New("negative input")
 	}
+	if v == 77 {
+		// logs before AND after the data batch: the cursor must still ride the data batch
+		out.ClientLog(LogInfo, "before emit")
+		if err := out.EmitMap(map[string][]interface{}{"value": {v}}); err != nil {
+			return err
+		}
+		out.ClientLog(LogInfo, "after emit")
+		return nil
+	}
 	return out.EmitMap(map[string][]interface{}{"value": {v}})
 }
 
@@ -172,6 +181,10 @@ func TestVerifReplay(t *testing.T) {
 	in := c16Batch(c16Schema, 42)
 	check("inline", c16Post(h, "/c16/exchange", c16IPC(t, in, tokMeta("user_key", "u1"))), 1, "u1")
 	in.Release()
+	// (1b) a turn that logs after it emitted: still exactly one data batch carrying the fresh cursor
+	in77 := c16Batch(c16Schema, 77)
+	check("log after emit", c16Post(h, "/c16/exchange", c16IPC(t, in77, tokMeta("user_key", "u1b"))), 2, "u1b")
+	in77.Release()
 	// (2) client-externalized input: tokens and user metadata ride on the fetched batch
 	in2 := c16Batch(c16Schema, 43)
 	ext := c16IPC(t, in2, tokMeta("user_key", "u2"))
@@ -180,7 +193,7 @@ func TestVerifReplay(t *testing.T) {
 	defer fetch.Close()
 	s.SetExternalLocation(&ExternalLocationConfig{HTTPClient: fetch.Client()})
 	ptr, _ := MakeExternalLocationBatch(c16Schema, fetch.URL)
-	check("external", c16Post(h, "/c16/exchange", c16IPC(t, ptr, tokMeta(MetaLocation, fetch.URL))), 2, "u2")
+	check("external", c16Post(h, "/c16/exchange", c16IPC(t, ptr, tokMeta(MetaLocation, fetch.URL))), 3, "u2")
 	ptr.Release()
 	s.SetExternalLocation(nil)
 	// (3) failing turn: an error, no cursor
